@@ -41,6 +41,7 @@ type vcAttr struct {
 	Age       int      `json:"age"`
 	About     string   `json:"about"` // administrative record: the catalogue bundle the status report is about ("" = some unknown bundle)
 	RKind     string   `json:"rkind"` // received | forwarded | delivered | deleted
+	Lsd       int      `json:"lsd"`   // > 0: the bundle carries DTLSR link-state data of node dtn://lsorigin/ with this timestamp
 }
 
 func (a vcAttr) unkFlags() (has bool, flags bpv7.BlockControlFlags) {
@@ -228,7 +229,8 @@ func vcNameOf(b bpv7.Bundle) string {
 		return "admin"
 	}
 	for _, t := range []uint64{bpv7.ExtBlockTypeProphetBlock, bpv7.ExtBlockTypeDTLSRBlock} {
-		if b.HasExtensionBlock(t) {
+		// the node's own routing metadata bundles; catalogue bundles that carry such a block (link-state data of another node) keep their name
+		if b.HasExtensionBlock(t) && !strings.HasPrefix(b.PrimaryBlock.SourceNode.String(), "dtn://src-") {
 			return "metadata"
 		}
 	}
@@ -482,6 +484,10 @@ func (w *vcWorld) build(name string) bpv7.Bundle {
 	}
 	if a.Copies > 0 {
 		add(0, bpv7.NewBinarySprayBlock(uint64(a.Copies)))
+	}
+	if a.Lsd > 0 {
+		add(0, bpv7.NewDTLSRBlock(bpv7.DTLSRPeerData{ID: bpv7.MustNewEndpointID("dtn://lsorigin/"), Timestamp: bpv7.DtnTime(a.Lsd),
+			Peers: map[bpv7.EndpointID]bpv7.DtnTime{bpv7.MustNewEndpointID("dtn://lsother/"): 0}}))
 	}
 	if a.Admin {
 		ref := vcRefBundle()
